@@ -376,6 +376,10 @@ func (c *C) Rcpt(ctx context.Context, to string, opts smtp.RcptOptions) error {
 		// TODO: DSN support
 	}
 
+	// Rcpts() is used to report per-recipient statuses so it should contain
+	// the address as passed to us, not the one we send to the server.
+	originalTo := to
+
 	// If necessary, the extension flag is enabled in Start.
 	if ok, _ := c.cl.Extension("SMTPUTF8"); !address.IsASCII(to) && !ok {
 		var err error
@@ -397,7 +401,7 @@ func (c *C) Rcpt(ctx context.Context, to string, opts smtp.RcptOptions) error {
 		return c.wrapClientErr(err, c.serverName)
 	}
 
-	c.rcpts = append(c.rcpts, to)
+	c.rcpts = append(c.rcpts, originalTo)
 
 	return nil
 }
